@@ -117,7 +117,11 @@ class Peer(object):
 
 class Break(object):
     """How and when the link ends, seen from the MAC."""
-    KINDS = ('disc', 'timeout', 'none', 'ioerror', 'bug', 'terminate')
+    # 'ioerror': one IOError from the host link (the device works again for
+    # the deactivation); 'iodead': the device is gone for good - every
+    # further I/O, the deactivation's included, raises IOError
+    KINDS = ('disc', 'timeout', 'none', 'ioerror', 'bug', 'terminate',
+             'iodead')
 
     def __init__(self, kind, at):
         assert kind in self.KINDS
@@ -177,16 +181,23 @@ def make_mac_classes():
                     raise nfc.clf.TimeoutError("scripted link disruption")
                 if brk.kind == 'none':
                     return None
-                if brk.kind == 'ioerror':
+                if brk.kind in ('ioerror', 'iodead'):
                     raise IOError(5, "scripted host link failure")
                 if brk.kind == 'bug':
                     raise LinkBug("scripted error in the link loop")
+            if brk is not None and brk.happened and brk.kind == 'iodead':
+                raise IOError(19, "scripted host link failure: device gone")
             if brk is not None and brk.happened and brk.kind != 'terminate':
                 raise nfc.clf.TimeoutError("peer is gone")
             return peer.respond(send_data)
 
         def deactivate(self, *a, **kw):
             self.deactivated = (a, kw)
+            brk = self.brk
+            if brk is not None and brk.happened and brk.kind == 'iodead':
+                # nfc.dep deactivation sends DSL_REQ/RLS_REQ (waits for the
+                # release request) through clf.exchange and lets IOError pass
+                raise IOError(19, "scripted host link failure: device gone")
 
     class Ini(Mixin, nfc.dep.Initiator):
         def activate(self, target=None, **options):
